@@ -687,6 +687,9 @@ func (s *lateStore) LoadOffset(ctx context.Context, id string) (ebu.Offset, erro
 func TestC12Concurrent(t *testing.T) {
 	run := vk.New("C12", "concurrent-live")
 	defer run.Finish()
+	if run.Shard == 0 {
+		parkedPublisher(run)
+	}
 	n := run.Scale(150, 5000)
 	procs := []int{2, 4, 16, 1}
 	defer runtime.GOMAXPROCS(runtime.GOMAXPROCS(0))
